@@ -171,12 +171,23 @@ class IncSolver:
         self.s.add(IDX(t))
         self.counts[-1][2] += 1
 
+    RL_FEAS = 300000          # resource limit of feasibility / canonicalisation queries (deterministic)
+
     def check(self, *assumptions, timeout_ms=2000):
+        """`timeout_ms` <= 500 marks a feasibility-type query: it runs under a small *resource*
+        limit (z3 rlimit: deterministic, independent of machine load) -- 'unsat' arrives within a
+        few thousand units when it arrives at all, anything else means 'possibly feasible'.
+        Obligation queries run under a wall-clock limit and are retried by the standalone prover."""
         n = self.nglobal[-1]
         if n < len(self.global_facts):
             self.s.add(*self.global_facts[n:])
             self.nglobal[-1] = len(self.global_facts)
-        self.set_timeout(timeout_ms)
+        if timeout_ms <= 500:
+            self.s.set("rlimit", self.RL_FEAS)
+            self.set_timeout(5000)
+        else:
+            self.s.set("rlimit", 0)
+            self.set_timeout(timeout_ms)
         t = time.time()
         r = self.s.check(*assumptions)
         self.time += time.time() - t
